@@ -1065,6 +1065,40 @@ impl<'a> Rw<'a> {
         if e.head() == Some("concat") {
             return false;
         }
+        // share: a value that an existing variable already names is referred to through that variable
+        // (so that one variable gets used several times, also from inside other variables' values)
+        if r.chance(1, 2) {
+            let mut shared: Option<String> = None;
+            for it in self.items.iter() {
+                if it.head() == Some("defvar") && !has_expand(it) {
+                    if let T::L(v) = it {
+                        let mut k = 1;
+                        while k + 1 < v.len() {
+                            if v[k + 1] == e && s.path[0] != usize::MAX {
+                                if let T::A(n) = &v[k] {
+                                    shared = Some(n.clone());
+                                }
+                            }
+                            k += 2;
+                        }
+                    }
+                }
+            }
+            if let Some(n) = shared {
+                // the reference must come after the definition when it sits in a defvar itself
+                let def_idx = self.items.iter().position(|it| it.head() == Some("defvar") && matches!(it, T::L(v) if v.iter().any(|x| matches!(x, T::A(m) if *m == n))));
+                let ok = match (def_idx, self.items[s.path[0]].head()) {
+                    (Some(d), Some("defvar")) => d < s.path[0],
+                    (Some(_), _) => true,
+                    _ => false,
+                };
+                if ok {
+                    set(&mut self.items, &s.path, a(&format!("${n}")));
+                    self.log.push("var-shared".into());
+                    return true;
+                }
+            }
+        }
         let name = self.ctx.fresh("v");
         set(&mut self.items, &s.path, a(&format!("${name}")));
         let existing: Vec<usize> = self
@@ -1685,6 +1719,20 @@ fn handmade() -> Vec<(&'static str, Vec<&'static str>, Vec<&'static str>, Vec<(&
             "pos",
             vec!["(defsrc a b)", "(deflayer l0 (tap-hold 200 200 a lsft) b)"],
             vec!["(defvar t 200)", "(defsrc a b)", "(defalias th (tap-hold $t $t a lsft))", "(deflayer l0 @th b)"],
+            vec![],
+            "p:a t:50 r:a t:300 p:a t:300 p:b t:10 r:b r:a t:500",
+        ),
+        (
+            "pos",
+            vec!["(defsrc a b)", "(deflayer l0 (tap-hold 200 200 a lsft) b)"],
+            vec!["(defvar t 200 th (tap-hold $t $t a lsft))", "(defsrc a b)", "(deflayer l0 $th b)"],
+            vec![],
+            "p:a t:50 r:a t:300 p:a t:300 p:b t:10 r:b r:a t:500",
+        ),
+        (
+            "pos",
+            vec!["(defsrc a b)", "(deflayer l0 (multi (tap-hold 200 200 a lsft) (macro 200)) b)"],
+            vec!["(defvar k 200 l (tap-hold $k $k a lsft) r (macro $k) both (multi $l $r))", "(defsrc a b)", "(deflayer l0 $both b)"],
             vec![],
             "p:a t:50 r:a t:300 p:a t:300 p:b t:10 r:b r:a t:500",
         ),
